@@ -2143,7 +2143,7 @@ fn main() {
             let n = text.matches('\n').count();
             log.line_map.push(LineMap {
                 gen_start: cur_line,
-                gen_end: cur_line + n,
+                gen_end: if text.ends_with('\n') && n > 0 { cur_line + n - 1 } else { cur_line + n },
                 item: $item,
                 kind: $kind.to_string(),
                 src_file: $file,
@@ -2214,6 +2214,19 @@ fn main() {
                 st.visit_item(it);
                 // R1: private fields are made `pub` (Verus treats a datatype with a private field as
                 // opaque in contracts of public functions); visibility has no run-time meaning
+                // R1: a private type is made `pub` (contracts of public functions must be able to name it)
+                {
+                    let (vis, kw_pos) = match it {
+                        syn::Item::Struct(sd) => (&sd.vis, br(sd.struct_token.span()).0),
+                        syn::Item::Enum(ed) => (&ed.vis, br(ed.enum_token.span()).0),
+                        _ => unreachable!(),
+                    };
+                    if matches!(vis, syn::Visibility::Inherited) {
+                        st.n += 1;
+                        st.edits.push(Edit { start: kw_pos, end: kw_pos, text: "pub ".to_string(), order: st.n });
+                        log.rewrites.push(Rewrite { rule: "R1-pub-type".into(), item: format!("type {}", name), orig: "private type".into(), repl: "pub".into() });
+                    }
+                }
                 if let syn::Item::Struct(sd) = it {
                     let mut widened = 0;
                     for f in sd.fields.iter() {
